@@ -3,7 +3,7 @@ and agreement of two layouts.
 
 Tokens (after normalisation):
   ('ints', [bits...])               a run of adjacent fixed-width integer fields
-  ('name',)                         a domain name
+  ('name', origin?)                 a domain name; origin? = whether the origin is passed (relative names)
   ('data', ref)                     opaque octets; ref = ('len', run_index, bit_offset) | ('fixed', n) | ('rest',) | ('any',)
   ('rep', [tokens])                 repeated until the RDATA is exhausted / once per element
   ('opt', [tokens])                 present only if data remains / only if non-empty
@@ -265,11 +265,13 @@ class Writer:
                 g = self.model.func(self.inline[key])
                 return Writer(self.model, g, "file", self.inline, g.cls, self.depth + 1).run()
             if len(c.args) + len(c.keywords) >= 3:
-                return [("name",)]
+                kw = {k.arg: k.value for k in c.keywords}
+                o = c.args[2] if len(c.args) >= 3 else kw.get("origin")
+                return [("name", o is not None and not (isinstance(o, ast.Constant) and o.value is None))]
             if len(c.args) == 2 and src(c.args[1]) == "origin":
                 return [("sub", "value")]
             if isinstance(recv, ast.Attribute) and src(recv.value) == "self":
-                return [("name",)]  # a field encoding itself into the file with default arguments: a domain name
+                return [("name", False)]  # a field encoding itself into the file with default arguments: a domain name
             return [("unknown", f"{src(f)}(...)")]
         # module-level helper taking the file: inline it
         if isinstance(f, ast.Name) and c.args and src(c.args[0]) == self.file and f.id in self.f.module.functions and self.depth < 4:
@@ -460,7 +462,9 @@ class Reader:
                 keys = [self.key() for _ in fields]
                 return [("int", b, k) for b, k in zip(fields, keys)], keys
             if a == "get_name":
-                return [("name",)], []
+                kw = {k.arg: k.value for k in c.keywords}
+                o = c.args[0] if c.args else kw.get("origin")
+                return [("name", o is not None and not (isinstance(o, ast.Constant) and o.value is None))], []
             if a == "get_counted_bytes":
                 n = 1
                 if c.args and isinstance(c.args[0], ast.Constant):
@@ -634,7 +638,9 @@ def compare(w: list, r: list, path="") -> Optional[str]:
                 if d:
                     return d
         elif a[0] == "name":
-            pass
+            if len(a) > 1 and len(b) > 1 and a[1] != b[1]:
+                return (f"{here}: domain name is {'written relative to the origin' if a[1] else 'written absolute'} but "
+                        f"{'read relative to the origin' if b[1] else 'read without the origin'}: with an origin the decoded record differs from the encoded one")
         i += 1
         j += 1
     if i < len(w):
